@@ -13,7 +13,9 @@ class Prop:
     vo_check = ["theories/Nonce/Check.vo"]
     vo_props = ["theories/Props/C04.vo"]
     k_names = ["numbering(device under co-simulation == Nonce.Seq.dstep incl. sendNonce after every step; Nonce.Spec.seq_check on the observed datagrams; the device comes to rest)",
-               "stress(every (receiver index, counter) seen under concurrent flushers passes Nonce.Spec.conc_holdsb)"]
+               "stress(every (receiver index, counter) seen under concurrent flushers passes Nonce.Spec.conc_holdsb)",
+               "duplicate-response(copies of one valid handshake response processed by concurrent handshake workers: every "
+               "(receiver index, counter) sent afterwards passes Nonce.Spec.conc_holdsb)"]
     rule = ("sequential scenarios: one peer, events {TUN batch 1..128, VerifSetSendNonce to 0 / 2^60-1..2^60+1 / Reject-130..Reject+2, "
             "Bind.Send error on a transport batch (clean / partial k of n) or on the initiation, "
             "retransmit timer in two real-time scenarios run concurrently, handshake answer by the independent party (device = initiator), handshake initiated by the independent party and confirmed by "
@@ -55,8 +57,10 @@ class Prop:
             n, worlds, dur = 600 * mult, 40, 4000
         files, cases = self._run_go(["-seed", str(seed), "-n", str(n), "-worlds", str(worlds), "-dur-ms", str(dur),
                                      "-shards", "16", "-out", self.dir, "-corpus", os.path.join(vlib.ROOT, "corpus", "C04")])
-        conc = [c for c in cases if c["kind"] == "conc"]
+        dup = [c for c in cases if c["kind"] == "conc" and c.get("gen") == "dupresp"]
+        conc = [c for c in cases if c["kind"] == "conc" and c.get("gen") != "dupresp"]
         self.extra_coverage = {
+            "duplicate_response_rounds": sum(c["info"].get("rounds", 0) for c in dup),
             "discarded_slow_scenarios": sum(1 for c in cases if c.get("slow")),
             "stuck_scenarios": sum(1 for c in cases if c.get("stuck")),
             "stress_worlds": len(conc),
@@ -99,7 +103,8 @@ class Prop:
         d = os.path.join(self.dir, "rerun")
         os.makedirs(d, exist_ok=True)
         inp = os.path.join(d, "in.json")
-        json.dump([{"kind": c.get("kind", "seq"), "evs": c.get("evs"), "cfg": c.get("cfg"), "long": c.get("long", False)} for c in cases], open(inp, "w"))
+        json.dump([{"kind": c.get("kind", "seq"), "evs": c.get("evs"), "cfg": c.get("cfg"), "long": c.get("long", False),
+                    "gen": c.get("gen"), "info": c.get("info")} for c in cases], open(inp, "w"))
         exe = vlib.build_go("c04")
         rc, o = vlib.sh([exe, "-replay", inp, "-out", d], cwd=vlib.ROOT, timeout=1800)
         if rc != 0:
@@ -144,6 +149,8 @@ class Prop:
                         seen.add(c)
                         if c >= REJECT:
                             over = True
+            if case.get("gen") == "dupresp" and dup:
+                return "duplicate-response-concurrent-workers-nonce-reuse"
             tags = (["duplicate-counter"] if dup else []) + (["counter-at-or-over-limit"] if over else [])
             return "stress-" + ("+".join(tags) or "other")
         if case.get("stuck"):
@@ -194,6 +201,8 @@ class Prop:
 
     def nontrivial(self, c):
         if c["kind"] == "conc":
+            if c.get("gen") == "dupresp":
+                return c["info"]["keys"] > 1
             return c["info"]["keys"] > 1 and c["info"]["transports"] >= 1000
         if c.get("stuck"):
             return True
